@@ -134,6 +134,9 @@ def result_for(n):
     mode = RESULT_MODE[0]
     if mode == "plain":
         return ("replaced", n)
+    if mode == "raises":
+        # the replacement fails: every convention has to deliver THIS failure
+        raise UserErr(("replacement", n))
     key = (mode, n)
     if key not in _RESULTS:
         from asynq import ConstFuture, Future
@@ -253,7 +256,10 @@ def check_inside_one(get, entered, rec, repl, target, viol, via):
         return 0
     cur = get()
     if entered is not None and repl in ("default", "new_callable", "explicit_mock"):
-        entered.return_value = result_for("mock")
+        if RESULT_MODE[0] == "raises":
+            entered.side_effect = UserErr(("replacement", "mock"))
+        else:
+            entered.return_value = result_for("mock")
 
     @A()
     def yielder(f, a, k):
@@ -318,7 +324,10 @@ def check_inside_one(get, entered, rec, repl, target, viol, via):
         if out != r0:
             viol.append(("conventions-disagree-on-result", {"sync call": repr(r0)[:100], name: repr(out)[:100]}))
             break
-    if r0[0] != "val":
+    if RESULT_MODE[0] == "raises":
+        if r0[0] != "exc" or r0[1][0] != "UserErr" or r0[1][1][0] != "replacement":
+            viol.append(("failure-of-the-replacement-not-delivered", {"outcome": repr(r0)[:160]}))
+    elif r0[0] != "val":
         viol.append(("patched-call-raised", {"outcome": repr(r0)[:160]}))
     return len(convs)
 
@@ -533,7 +542,7 @@ def run_unit(unit, progress):
     for i in range(a, b):
         progress(i)
         t, r, act, e, comp, entry = allc[i]
-        rmode = ["plain", "constfuture", "plain", "lazyfuture"][i % 4]
+        rmode = ["plain", "constfuture", "raises", "lazyfuture", "plain", "raises"][i % 6]
         viol, nconv = run_cell(t, r, act, e, comp, entry, rmode)
         c["cells_result_" + rmode] = c.get("cells_result_" + rmode, 0) + 1
         res["evaluations"] += max(1, nconv)
